@@ -124,6 +124,8 @@ def to_mutation(spec, e):
                              e['name'])
             kw = field_attrs_for_mutation(nf)
             kw['field_type'] = S.field_class(e['new_kind'])
+            if e.get('explicit_null'):
+                kw['null'] = bool(nf.get('null', False))
         if e.get('initial') is not None:
             kw['initial'] = initial_object(e['initial'])
         return M.ChangeField(e['model'], e['name'], **kw)
